@@ -946,6 +946,9 @@ extern void dumpnfa(int);
 /* Finish up the processing for a rule. */
 extern void finish_rule(int, bool, int, int, int);
 
+/* Open the action text of the rule just finished. */
+extern void begin_rule_action(void);
+
 /* Connect two machines together. */
 extern int link_machines(int, int);
 
